@@ -27,7 +27,10 @@ closed under legal moves. `abs p : Spec.Pos` is the chess position an engine pos
 move an engine move denotes.
 
 Remaining hypotheses, and nothing else:
-* `BlendBounded env.blend pstMaxAbs` — the recorded parameter assumption on the float king-table interpolation;
+* `BlendBounded env.blend pstMaxAbs` — the recorded parameter assumption on the float king-table interpolation:
+  on material sums `≤ maxMaterialSum` the blend of two table values is within `blendK · pstMaxAbs` (the engine
+  does not clamp the game-phase factor, so the blend extrapolates with promoted pieces; the assumption is true of
+  the exact interpolation, `Lemmas.EvalBound.blendBounded_exact`);
 * `PermSort env` — the sort function only reorders;
 * the allocated shapes (PV table with `Gen.pvRows` triangular rows, position stack `Gen.plyBufferCapacity`, killer
   table `Gen.killerMovesMaxPly`, `maxDepth ≤ Gen.MaxSearchDepth`, quiescence fuel `> Gen.maxQuiescenceDepth`,
@@ -53,7 +56,7 @@ example : Total.G startPosition := Total.G_start
 theorem closed_G : Closed Total.G := Magog.Capstone.closed_G
 
 /-- With a bounded blend every static and terminal score on a good position is strictly between `−∞` and `+∞`
-    (`|score| ≤ evalB = 19 950`, or the mate score `Lost + d`), for every PV table of at most 10 000 rows (the
+    (`|score| ≤ evalB = 20 650`, or the mate score `Lost + d`), for every PV table of at most 10 000 rows (the
     engine allocates `Gen.pvRows = 88`): C10's / C14's hypothesis `EvalFinite`. -/
 theorem evalFinite_of_blendBounded {env : Env} (hb : BlendBounded env.blend pstMaxAbs)
     {rows : Array (Array Move)} (hD : rows.size ≤ 10000) :
